@@ -217,7 +217,7 @@ pub fn run(ctx: &Ctx) -> i32 {
         // space (whose results are checked only where the statement defines them). Catches costs that follow a
         // setting only when something else changes too, or that depend on what was costed before.
         if stats.failures.is_empty() {
-            let steps: u32 = tier.pick(300_000, 60_000_000);
+            let steps: u32 = tier.pick(4_000_000, 60_000_000);
             let mut cfg = BusCfg::ZERO;
             let any32 = any::<u32>();
             for _ in 0..steps {
@@ -348,7 +348,7 @@ pub fn run(ctx: &Ctx) -> i32 {
     });
     let mut stats = stats;
     stats.exhaustive_subspaces.insert("area (0-7, on-chip RAM) x width x access-state x wait field x DRAM select x kind x count 1-5 x address x {calc_state, calc_state_with_addr}".into(), stats.nontrivial_keys.len() as u64);
-    let rule = "cases = for each of the eight areas and on-chip RAM: every value of the area's bus-width bit, access-state bit, wait field and the DRAM-area-select field (areas 3-5 only with select 0/1 - others are counted as skipped), all six cycle kinds, counts 1-5, the first / middle / last address of the area outside the on-chip I/O registers, through both calc_state (own-instruction address) and calc_state_with_addr - enumerated completely - each repeated under the all-zero, all-one and proptest-generated settings of all *other* areas' bits plus every one-bit flip of them (independence). Plus a transition walk per shard (300,000 quick / 5,000,000 thorough steps): every step changes at most one bus-controller register (written through Bus::write), then costs a cycle in the shard's area, with lookups anywhere else in the address space in between (history-dependent or late-following costs), and now and then a silent burst of 255-257 / 511-513 / 65535-65537 register writes without any lookup (change counters of 8 or 16 bits), stray writes to aliases of the registers, and changes of the rest of the machine (the bus controller's other registers, any other on-chip register, the levels at the port pins) which no cost may follow. Oracle = the cost rule of the statement written as a 10-line function. Non-trivial = every tuple (all differ from the 4 area-0 settings of the unit tests except those 4); distinct = the tuple.";
+    let rule = "cases = for each of the eight areas and on-chip RAM: every value of the area's bus-width bit, access-state bit, wait field and the DRAM-area-select field (areas 3-5 only with select 0/1 - others are counted as skipped), all six cycle kinds, counts 1-5, the first / middle / last address of the area outside the on-chip I/O registers, through both calc_state (own-instruction address) and calc_state_with_addr - enumerated completely - each repeated under the all-zero, all-one and proptest-generated settings of all *other* areas' bits plus every one-bit flip of them (independence). Plus a transition walk per shard (4,000,000 quick / 60,000,000 thorough steps): every step changes at most one bus-controller register (written through Bus::write), then costs a cycle in the shard's area, with lookups anywhere else in the address space in between (history-dependent or late-following costs), and now and then a silent burst of 255-257 / 511-513 / 65535-65537 register writes without any lookup (change counters of 8 or 16 bits), stray writes to aliases of the registers, and changes of the rest of the machine (the bus controller's other registers, any other on-chip register, the levels at the port pins) which no cost may follow. Oracle = the cost rule of the statement written as a 10-line function. Non-trivial = every tuple (all differ from the 4 area-0 settings of the unit tests except those 4); distinct = the tuple.";
     let mut extra = Map::new();
     extra.insert("exhaustive_over_own_area_tuples".into(), json!(true));
     extra.insert("independence_settings_per_tuple".into(), json!(nrand + 2));
